@@ -77,6 +77,33 @@ PROPS["C14"] = {
     "release_too": False,
 }
 
+PROPS["C02"] = {
+    "level": "proof",
+    "technique": "Lean 4: the transform-domain arithmetic of verify equals the specification's acceptance test on the decoded vector (uses the C11 development), constants re-extracted; model vs code vs an independent schoolbook specification verifier on exact-norm constructions",
+    "rule": "ops = verify through the public API (bytes in): (msg, sig, pk) triples constructed so that the specification norm is exactly beta^2-2 .. beta^2+2 (thorough: +-8) for both variants with three shapes of s2, random norms on both sides, s2 coefficients beyond q/2 up to the codec cap, production-size encodings with every boundary of the codec generator under random keys, encodings that fill the buffer to the last bit, undecodable inputs; distinct by op line; every op is judged against Algorithm 16 (Alg. 3 + uncapped Alg. 18 + schoolbook product) implemented independently in the harness",
+    "exhaustive": {"quick": (False, ""), "thorough": (False, "")},
+    "level_text": "Machine-checked for every n = 2^d <= 1024, every hashed point, public key and decoder output, both build modes: verify's NTT pipeline computes exactly c - s2*h in Z_q[X]/(X^n+1), centres it, adds the integer norm of s2 and compares with <= floor(beta^2) (34034726 / 70265242, operator and constants re-extracted from falcon.rs); returns false when decompression fails; the codec's magnitude cap cannot change a verdict. With C07 (decompressor = Algorithm 18 + cap) and C14 this is Algorithm 16.",
+    "level_note": "Trusted: Lean kernel + Mathlib algebra; translator; SHAKE-256 transcription (C14); the byte-level/bit-level refinement of decompress is validated by execution (C07), so the end-to-end equality with Algorithm 16 on raw bytes rests on that plus the theorems.",
+    "trusted_base": TB_COMMON + ["sha3 crate / Lean SHAKE-256 transcription (see C14)"],
+    "assumptions": ["the hashed point has n coefficients (the SHAKE stream contains n accepted chunks)"],
+    "not_proved": ["Codec.decompress = Spec.decompressRef for all byte strings (validated by execution, see C07)"],
+    "release_too": False,
+}
+
+PROPS["C03"] = {
+    "level": "proof",
+    "technique": "Lean 4: index-bound and overflow-freedom proofs on the byte-exact models (decompress total for all strings and both build modes, all three decoders total, verify arithmetic total) + three-valued differential execution against checked and release builds aimed at the buffer end",
+    "rule": "ops = the three decoders on mutated/random strings of both variants (incl. secret keys whose f is not invertible), decompress on production-size buffers steered to end 0..17 bits before the buffer end with bit flips in the last 18 bits, small-n strings with every slack, verify through the public API on arbitrary bodies/keys; run in the overflow-checked and the release build; distinct by op line; every op is judged: the outcome must not be a panic",
+    "exhaustive": {"quick": (False, ""), "thorough": (False, "")},
+    "level_text": "Machine-checked on index-exact models, for chk = true and false: decompress never panics for any byte string and any n >= 1 (cursor invariants, fuel-bounded loops, i16 ranges) and returns n coefficients when it accepts; Signature/PublicKey/SecretKey::from_bytes never panic; the arithmetic of verify never panics for any hashed point, key and signature body of either variant.",
+    "level_note": "Trusted: Lean kernel; the models' faithfulness to the Rust indices/casts (checked three-valued against both builds on every run); floating-point code after SecretKey decoding cannot trap and is not modelled; hash_to_point's loop is total only if SHAKE yields enough accepted chunks.",
+    "trusted_base": TB_COMMON,
+    "assumptions": ["SecretKey::from_bytes continues into NTT division (batch inversion, compared not proved) and from_b0 (floating point)"],
+    "not_proved": ["batch_inverse_or_zero never panics (canonical inputs; exercised with non-invertible f on every run)"],
+    "release_too": True,
+    "release_filter": r"^(decompress|pk_from_bytes|sk_from_bytes|sig_from_bytes) ",
+}
+
 # properties not (yet) claimed, with the reason shown in MANIFEST.not_applicable
 NOT_YET = {k: "check not built yet in this session (planned in DESIGN.md §7/§8); not claimed until its check passes" for k in
-           ["C01", "C02", "C03", "C04", "C05", "C08", "C09", "C10", "C13", "C15", "C16", "C17"]}
+           ["C01", "C04", "C05", "C08", "C09", "C10", "C13", "C15", "C16", "C17"]}
